@@ -1,6 +1,11 @@
 package redis
 
-import "fmt"
+import (
+	"errors"
+	"fmt"
+
+	"github.com/mgtv-tech/redis-GunYu/pkg/redis/client/common"
+)
 
 const nodePipelineMaxInFlight = 64
 
@@ -43,6 +48,20 @@ func (r *nodePipelineRequest) Wait() ([]interface{}, error) {
 func (r *nodePipelineRequest) complete(replies []interface{}, err error) {
 	r.result <- nodePipelineResult{replies: replies, err: err}
 	close(r.result)
+}
+
+// errBehindFailedRequest is the error for the requests that were in flight BEHIND a request
+// whose receive failed. An error reply (MOVED, ASK, ...) answers that one request only; the
+// requests behind it have not been answered at all, they only lose the connection. They must
+// not see the reply itself: a transaction batcher would follow a redirect that was never
+// addressed to it and, bounced back by the wrong node, commit a second time a transaction
+// this node has already executed.
+func errBehindFailedRequest(err error) error {
+	var redisErr common.RedisError
+	if errors.As(err, &redisErr) {
+		return fmt.Errorf("node pipeline connection closed, the request in front was answered: %s", redisErr.Error())
+	}
+	return err
 }
 
 type nodePipeline struct {
@@ -142,7 +161,7 @@ func (p *nodePipeline) run() {
 		if err != nil {
 			req.complete(nil, err)
 			closeConn()
-			failPending(err)
+			failPending(errBehindFailedRequest(err))
 			return
 		}
 		req.complete(replies, nil)
